@@ -244,3 +244,31 @@ def c07_range_override_unpopulated_member(w, v):
     return parts[0] == 'reference' and \
         'downstream-of-unpopulated-member' in parts and \
         bool(w.get('downstream_of_unpopulated_member'))
+
+
+@matcher('c05_equal_size_reshaped')
+def c05_equal_size_reshaped(w, v):
+    """A value whose number of elements equals that of the destination but
+    whose shape differs is re-laid out row by row (numpy.reshape) instead of
+    being fitted: {1,2} into A1:A2 gives {1;2}.  The repository's own test
+    test_output_236 relies on it (a 1x4 input for a 4x1 range)."""
+    if not v['sig'].startswith('fit:'):
+        return False
+    case = w.get('case') or {}
+    src, dest = case.get('src'), case.get('dest')
+    if not src or not dest:
+        return False
+    r, c = len(src), len(src[0])
+    if r * c != dest[0] * dest[1] or [r, c] == list(dest):
+        return False
+    flat = [x for row in src for x in row]
+    rows = [flat[i * dest[1]:(i + 1) * dest[1]] for i in range(dest[0])]
+
+    def show(x):
+        if isinstance(x, bool):
+            return 'TRUE' if x else 'FALSE'
+        if isinstance(x, str):
+            return '"%s"' % x
+        return repr(float(x))
+    want = '{' + ';'.join(','.join(show(x) for x in row) for row in rows) + '}'
+    return w.get('observed') == want
